@@ -370,6 +370,12 @@ func (r ImportsReplacer) Cleanup(d data.Data, f *ast.File, newNames []string) er
 		numSpecs[d] = len(d.Specs)
 	}
 
+	// Imports that the "+" side lists as well: those on context lines.
+	onPlus := make(map[importKey]struct{})
+	for _, imp := range r.Imports {
+		onPlus[importKey(imp.NameS+" "+imp.Path)] = struct{}{}
+	}
+
 	// Delete matched imports that are no longer used.
 	for _, matched := range impData.MatchedImports {
 		var importName, pkgName string
@@ -390,6 +396,13 @@ func (r ImportsReplacer) Cleanup(d data.Data, f *ast.File, newNames []string) er
 
 		if len(pkgName) == 0 {
 			pkgName = guessPackageName(imp)
+		}
+
+		// Nothing refers to a blank or dot import by name, so it always
+		// looks unused. It goes only if the patch deletes it, not if the
+		// patch has it on a context line.
+		if _, ok := onPlus[matched.Key]; ok && (importName == "_" || importName == ".") {
+			continue
 		}
 
 		// If this import was replaced by an added import, kill it.
